@@ -544,6 +544,8 @@ func c8templates() []c8tpl {
 		"\tfmt.Println(f(), util.Get(), util.Other)\n", "210 10 6\n")
 	add2("func g(Count int) int {\n\tif Count > 0 {\n\t\tutil := &T{Other: Count}\n\t\tutil.Other = util.Other * 2\n\t\tCount = util.Other\n\t}\n\tutil.Other = Count + 1\n\treturn util.Other\n}\n\n",
 		"\ta := g(4)\n\tb := util.Other\n\tc := g(-1)\n\td := util.Other\n\tfmt.Println(a, b, c, d, util.Count)\n", "9 9 0 0 7\n")
+	// locals and parameters named like builtins shadow them, in value and in call position, until their block ends
+	add("func g(append func(int) int, copy int) int {\n\treturn append(copy) + len(\"ab\")\n}\n\nfunc h() int {\n\tn := len(\"abc\")\n\tif n > 0 {\n\t\tlen := func(s string) int {\n\t\t\treturn 42\n\t\t}\n\t\tn += len(\"abc\")\n\t}\n\treturn n*100 + len(\"abcd\")\n}\n\n", "\tfmt.Println(g(func(a int) int {\n\t\treturn a * 2\n\t}, 4), h())\n", "10 4504\n-- 1000 2000\n")
 	// constants: a local constant shadows a variable of an enclosing scope until its block ends
 	add("func f(flag bool) int {\n\tlimit := 10\n\ttotal := 0\n\tif flag {\n\t\tconst limit = 3\n\t\ttotal += limit\n\t}\n\tfor i := 0; i < 2; i++ {\n\t\tconst limit = 100\n\t\ttotal += limit\n\t}\n\treturn total*1000 + limit\n}\n\n", "\tfmt.Println(f(true), f(false))\n", "203010 200010\n-- 1000 2000\n")
 	add("const c = 5\n\nfunc f(c int) int {\n\treturn c + 1\n}\n\nfunc g() int {\n\tconst x = 2\n\tif c > 0 {\n\t\tconst y = x * 3\n\t\treturn y + x\n\t}\n\treturn x\n}\n\n", "\tc := c * 2\n\tfmt.Println(c, f(1), g(), x, y)\n", "10 2 8 1000 2000\n-- 1000 2000\n")
